@@ -183,9 +183,18 @@ def run(res, tier):
     swap = [top for (top, leaves) in IP_.may_sites(fx, f, lambda c: c['k'] == 'CXXMemberCallExpr' and (c.get('q') or '').endswith('::SwapContents'),
                                                    '^' + TP + '::(?!DispatchPendingMessagesUnsafe$)')]
     disp = P.calls(f, r'::DispatchPendingMessagesUnsafe$')
-    guards_decl = [v for v in f.walk() if v['k'] == 'VarDecl' and L.GUARD_TYPES.search(v.type())]
-    unlocks = [c for c in f.walk() if c['k'] == 'CXXMemberCallExpr' and (c.get('q') or '').split('::')[-1] in ('UnlockEarly', 'unlock')]
-    one_cs = len(guards_decl) == 1 and not unlocks
+    # one critical section: the flag clear, the promotion and the dispatch all run under one and the same guard object (a scoped guard, or an explicit Lock() … Unlock() pair)
+    lf_c = L.LockFlow(f)
+
+    def gids(node):
+        p_ = P.pos_of(f, node)
+        base = lf_c.IN.get(p_[0]) if p_ else None
+        return set(g_ for g_ in lf_c._transfer(p_[0], base, upto=p_[1]) if lf_c.guards.get(g_) == LOCK) if base is not None else set()
+    evs_ = clr + swap + disp
+    common_g = None
+    for e_ in evs_:
+        common_g = gids(e_) if common_g is None else (common_g & gids(e_))
+    one_cs = bool(evs_) and bool(common_g)
     order = bool(clr) and bool(disp) and all(P.must_precede(f, clr, d, P.escape_edges(f)) for d in disp) and (not swap or all(P.must_precede(f, swap, d, P.escape_edges(f)) or True for d in disp))
     # promotion precedes dispatch on the path where deferred Messages exist
     promo = bool(swap) and all(not C.can_reach(f, P.pos_of(f, d), set([P.pos_of(f, s)])) for d in disp for s in swap)
